@@ -51,6 +51,7 @@ type vDelivered struct {
 }
 
 type vSD struct {
+	nativePacing bool // native replay of the back-pressure harness: samples are paced against the real clock
 	tracks    []*Track
 	ctracks   []*clientTrack
 	delivered []*vDelivered
@@ -62,6 +63,9 @@ func (s *vSD) setTracks(ctx context.Context, tracks []*Track) ([]*clientTrack, b
 	for i, t := range tracks {
 		i := i
 		ct := &clientTrack{track: t}
+		if s.nativePacing {
+			ct.startRTC = time.Now()
+		}
 		ct.onData = func(pts int64, dts int64, data [][]byte) {
 			s.delivered = append(s.delivered, &vDelivered{track: i, pts: pts, dts: dts, data: data, ntp: ct.lastAbsoluteTime})
 		}
